@@ -87,9 +87,11 @@ def programs():
         add('pending-comment', H + 'func g() {\n\t%s\n\ts := %s\n\t_ = s\n}\n' % (c, raw))
         add('pending-comment', H + '%s\nvar s = %s\n' % (c, raw))
     # F8: labels at the end of a block
-    add('label-end', H + 'func f() { L: }\n', [H + 'func f() {\nL:\n}\n'])
-    add('label-end', H + 'func f() { if x { L: } }\n')
-    add('label-end', H + 'func f() {\n\tgoto done\ndone:\n}\n')
+    add('label-end', H + 'func f() { L: }\n', [H + 'func f() {\nL:\n}\n', H + 'func f() { L: ; }\n', H + 'func f() {\nL:\n\t;\n}\n'])
+    add('label-end', H + 'func f() { if x { L: } }\n', [H + 'func f() { if x { L: ; } }\n'])
+    add('label-end', H + 'func f() {\n\tgoto done\ndone:\n}\n', [H + 'func f() {\n\tgoto done;\ndone: ;\n}\n'])
+    add('label-end', H + 'func f() {\n\tswitch x {\n\tcase 1:\n\t\tgoto next\n\tnext:\n\t}\n\tselect {\n\tdefault:\n\tout:\n\t}\n\tfor {\n\tA:\n\tB:\n\t}\n}\n',
+        [H + 'func f() {\n\tswitch x {\n\tcase 1:\n\t\tgoto next;\n\tnext: ;\n\t}\n\tselect {\n\tdefault:\n\tout: ;\n\t}\n\tfor {\n\tA:\n\tB: ;\n\t}\n}\n'])
     # F9: a key-less range loop before composite literals and unary operators on them
     add('range-then-literal', H + 'func f() {\n\tfor range ch {\n\t}\n\tx := T{}\n\t_ = -T{1}.v\n\ty := a * T{b}.v\n\tz := pkg.T{a: 1, b: 2}\n}\nfunc g() T { return T{a: 1, b: 2} }\n')
     # F10: a line end that inserts a semicolon, reached through blanks and several comments, where the next line could
